@@ -221,6 +221,11 @@ fn run_chunk<V: Variant>(seed: u64, run: u64, key_index: usize, chunk: u64, pool
         threads,
     };
     let (res, sched) = signers::execute::<V>(&plan, keys);
+    if sched.free_running {
+        st.inc("inconclusive.schedule_infeasible");
+        out.stats = st;
+        return out;
+    }
     st.steps += sched.steps;
     st.add("sched.switches", sched.switches);
     if sched.switches > 0 {
